@@ -22,6 +22,10 @@ type cmpSite struct {
 	text string
 	lt   types.Type
 	pa   Poly // the same polynomial with locals/parameters named by their type (alpha-invariant)
+	pr   Poly // the named polynomial with single-definition locals substituted (hoisted or inlined locals are immaterial)
+	from string // the function the comparison is written in, when it was reached through an unexported helper
+	uses map[string]bool // identifiers the comparison depends on, directly or through the single-definition locals it mentions
+	rop  token.Token     // the operator under which the path is REFUSED (error / false / non-ACCEPT / continue / break), when the comparison governs such a branch; 0 otherwise
 }
 
 var flipOp = map[token.Token]token.Token{token.LSS: token.GTR, token.LEQ: token.GEQ, token.GTR: token.LSS, token.GEQ: token.LEQ, token.EQL: token.EQL, token.NEQ: token.NEQ}
@@ -33,44 +37,277 @@ type cmpDecl struct {
 
 var cmpDecls = map[string]cmpDecl{}
 
+// cmpsIn collects the comparisons written in one function. With subst (parameter -> the argument of one call site)
+// the function is read as it would be if inlined at that call: a check moved into a parametrised helper stays the same
+// check. callerRecv is the calling method's receiver (also written `recv`), callerDefs its single-definition locals.
+func cmpsIn(pk *packages.Package, fd *ast.FuncDecl, fn string, subst map[types.Object]ast.Expr, callerRecv types.Object, callerDefs map[types.Object]localDef, callerReach *reachInfo) []cmpSite {
+	var out []cmpSite
+	info := pk.TypesInfo
+	polyRecv, polyRecv2, polyArgs = nil, callerRecv, subst
+	if fd.Recv != nil && len(fd.Recv.List) == 1 && len(fd.Recv.List[0].Names) == 1 {
+		polyRecv = info.Defs[fd.Recv.List[0].Names[0]]
+	}
+	polyReach, polyPaths = reachingDefs(info, fd.Body), true
+	if callerReach != nil {
+		for o, ds := range callerReach.defs {
+			if _, dup := polyReach.defs[o]; !dup {
+				polyReach.defs[o] = ds
+			}
+		}
+		for n, p := range callerReach.parents {
+			polyReach.parents[n] = p
+		}
+		for o := range callerReach.addr {
+			polyReach.addr[o] = true
+		}
+	}
+	defer func() { polyRecv, polyRecv2, polyArgs, polyReach, polyPaths = nil, nil, nil, nil, false }()
+	fdefs := singleDefs(info, fd.Body)
+	for o, d := range callerDefs {
+		if _, dup := fdefs[o]; !dup {
+			fdefs[o] = d
+		}
+	}
+	fparents := parentMap(fd.Body)
+	ast.Inspect(fd.Body, func(n ast.Node) bool {
+		be, ok := n.(*ast.BinaryExpr)
+		if !ok {
+			return true
+		}
+		switch be.Op {
+		case token.LSS, token.LEQ, token.GTR, token.GEQ, token.EQL, token.NEQ:
+		default:
+			return true
+		}
+		l, ok1 := exprPoly(info, be.X, nil, nil, 0)
+		r, ok2 := exprPoly(info, be.Y, nil, nil, 0)
+		if !ok1 || !ok2 {
+			// non-arithmetic operands (structs, roots, nil): keep with opaque atoms
+			l = polyAtom(strings.ReplaceAll(exprText(info, be.X), " ", ""))
+			r = polyAtom(strings.ReplaceAll(exprText(info, be.Y), " ", ""))
+		}
+		polyAbstract = true
+		polyAbsSeen = nil
+		la, oka := exprPoly(info, be.X, nil, nil, 0)
+		ra, okb := exprPoly(info, be.Y, nil, nil, 0)
+		polyAbstract = false
+		if !oka || !okb {
+			la = polyAtom(absName(info, be.X))
+			ra = polyAtom(absName(info, be.Y))
+		}
+		pr := polyAdd(l, r, -1)
+		if lr, ok := exprPoly(info, be.X, fdefs, nil, 0); ok {
+			if rr, ok := exprPoly(info, be.Y, fdefs, nil, 0); ok {
+				pr = polyAdd(lr, rr, -1)
+			}
+		}
+		uses := map[string]bool{}
+		var collectUses func(e ast.Node, depth int)
+		collectUses = func(e ast.Node, depth int) {
+			if e == nil || depth > 8 {
+				return
+			}
+			ast.Inspect(e, func(k ast.Node) bool {
+				if id, ok := k.(*ast.Ident); ok && !uses[id.Name] {
+					uses[id.Name] = true
+					o := info.ObjectOf(id)
+					if d, ok := fdefs[o]; ok && d.rhs != nil {
+						collectUses(d.rhs, depth+1)
+					}
+					if a, ok := subst[o]; ok {
+						collectUses(a, depth+1)
+					}
+				}
+				return true
+			})
+		}
+		collectUses(be, 0)
+		out = append(out, cmpSite{fn, be.Pos(), be.Op, polyAdd(l, r, -1), types.ExprString(be), info.TypeOf(be.X), polyAdd(la, ra, -1), pr, "", uses, refusalOp(info, fd, fparents, be)})
+		return true
+	})
+	return out
+}
+
 func collectCmps(p *Prog) map[string][]cmpSite {
 	out := map[string][]cmpSite{}
 	cmpDecls = map[string]cmpDecl{}
 	p.funcDecls(func(pk *packages.Package, fd *ast.FuncDecl) {
-		info := pk.TypesInfo
 		fn := pkgShort(pk.Types) + "." + funcName(fd)
 		cmpDecls[fn] = cmpDecl{pk, fd}
+		out[fn] = cmpsIn(pk, fd, fn, nil, nil, nil, nil)
+	})
+	// a function stands for itself and the unexported helpers of its package it calls (two levels): moving a check
+	// into a helper, or inlining one, does not move it out of the function's obligations. A helper called directly is
+	// read once per call site with its parameters replaced by that call's arguments.
+	own := map[string][]cmpSite{}
+	for fn, ss := range out {
+		own[fn] = ss
+	}
+	direct, closure := helperClosure(p)
+	for fn, hs := range closure {
+		seen := map[string]bool{}
+		add := func(s cmpSite, h string) {
+			k := fmt.Sprint(s.pos, "|", s.p.String(), "|", s.pr.String())
+			if seen[k] {
+				return
+			}
+			seen[k] = true
+			s.from = h
+			s.fn = fn
+			out[fn] = append(out[fn], s)
+		}
+		caller := cmpDecls[fn]
+		var callerRecv types.Object
+		if fd := caller.fd; fd != nil && fd.Recv != nil && len(fd.Recv.List) == 1 && len(fd.Recv.List[0].Names) == 1 {
+			callerRecv = caller.pk.TypesInfo.Defs[fd.Recv.List[0].Names[0]]
+		}
+		var callerDefs map[types.Object]localDef
+		var callerReach *reachInfo
+		if caller.fd != nil && caller.fd.Body != nil {
+			callerDefs = singleDefs(caller.pk.TypesInfo, caller.fd.Body)
+			callerReach = reachingDefs(caller.pk.TypesInfo, caller.fd.Body)
+		}
+		isDirect := map[string]bool{}
+		for _, hc := range direct[fn] {
+			isDirect[hc.h] = true
+			hd := cmpDecls[hc.h]
+			if hd.fd == nil || hd.fd.Body == nil {
+				continue
+			}
+			subst := map[types.Object]ast.Expr{}
+			i := 0
+			variadic := false
+			if sig, ok := hd.pk.TypesInfo.Defs[hd.fd.Name].Type().(*types.Signature); ok {
+				variadic = sig.Variadic()
+			}
+			if !variadic {
+				for _, f := range hd.fd.Type.Params.List {
+					for _, nm := range f.Names {
+						if i < len(hc.call.Args) {
+							if o := hd.pk.TypesInfo.Defs[nm]; o != nil && substitutable(hc.call.Args[i]) && !assignedIn(hd.pk.TypesInfo, hd.fd.Body, o) {
+								subst[o] = hc.call.Args[i]
+							}
+						}
+						i++
+					}
+				}
+			}
+			// the helper's receiver, when called on the caller's own receiver, is the same `recv`
+			for _, s := range cmpsIn(hd.pk, hd.fd, hc.h, subst, callerRecv, callerDefs, callerReach) {
+				add(s, hc.h)
+			}
+		}
+		for _, h := range hs {
+			if isDirect[h] {
+				continue
+			}
+			for _, s := range own[h] {
+				add(s, h)
+			}
+		}
+	}
+	return out
+}
+
+// substitutable: arguments that can stand for a parameter in a normal form (names, fields, constants, conversions and
+// arithmetic of those); calls with effects are left as the parameter's name.
+func substitutable(e ast.Expr) bool {
+	ok := true
+	ast.Inspect(e, func(n ast.Node) bool {
+		switch n.(type) {
+		case *ast.FuncLit, *ast.CompositeLit:
+			ok = false
+		}
+		return ok
+	})
+	return ok
+}
+
+func assignedIn(info *types.Info, body *ast.BlockStmt, o types.Object) bool {
+	found := false
+	ast.Inspect(body, func(n ast.Node) bool {
+		switch x := n.(type) {
+		case *ast.AssignStmt:
+			for _, l := range x.Lhs {
+				if id, ok := ast.Unparen(l).(*ast.Ident); ok && info.ObjectOf(id) == o {
+					found = true
+				}
+			}
+		case *ast.IncDecStmt:
+			if id, ok := ast.Unparen(x.X).(*ast.Ident); ok && info.ObjectOf(id) == o {
+				found = true
+			}
+		case *ast.UnaryExpr:
+			if x.Op == token.AND {
+				if id, ok := ast.Unparen(x.X).(*ast.Ident); ok && info.ObjectOf(id) == o {
+					found = true
+				}
+			}
+		}
+		return !found
+	})
+	return found
+}
+
+type helperCall struct {
+	h    string
+	call *ast.CallExpr
+}
+
+// helperClosure: function -> the unexported functions/methods of the same package it (transitively, depth 2) calls.
+func helperClosure(p *Prog) (map[string][]helperCall, map[string][]string) {
+	name := map[*types.Func]string{}
+	p.funcDecls(func(pk *packages.Package, fd *ast.FuncDecl) {
+		if f, ok := pk.TypesInfo.Defs[fd.Name].(*types.Func); ok {
+			name[f] = pkgShort(pk.Types) + "." + funcName(fd)
+		}
+	})
+	direct := map[string][]string{}
+	calls := map[string][]helperCall{}
+	p.funcDecls(func(pk *packages.Package, fd *ast.FuncDecl) {
+		if fd.Body == nil {
+			return
+		}
+		fn := pkgShort(pk.Types) + "." + funcName(fd)
+		seen := map[string]bool{}
 		ast.Inspect(fd.Body, func(n ast.Node) bool {
-			be, ok := n.(*ast.BinaryExpr)
+			call, ok := n.(*ast.CallExpr)
 			if !ok {
 				return true
 			}
-			switch be.Op {
-			case token.LSS, token.LEQ, token.GTR, token.GEQ, token.EQL, token.NEQ:
-			default:
+			f := calleeFunc(pk.TypesInfo, call)
+			if f == nil || f.Pkg() != pk.Types || f.Exported() {
 				return true
 			}
-			l, ok1 := exprPoly(info, be.X, nil, nil, 0)
-			r, ok2 := exprPoly(info, be.Y, nil, nil, 0)
-			if !ok1 || !ok2 {
-				// non-arithmetic operands (structs, roots, nil): keep with opaque atoms
-				l = polyAtom(strings.ReplaceAll(types.ExprString(be.X), " ", ""))
-				r = polyAtom(strings.ReplaceAll(types.ExprString(be.Y), " ", ""))
+			if h, ok := name[f]; ok && h != fn {
+				calls[fn] = append(calls[fn], helperCall{h, call})
+				if !seen[h] {
+					seen[h] = true
+					direct[fn] = append(direct[fn], h)
+				}
 			}
-			polyAbstract = true
-			polyAbsSeen = nil
-			la, oka := exprPoly(info, be.X, nil, nil, 0)
-			ra, okb := exprPoly(info, be.Y, nil, nil, 0)
-			polyAbstract = false
-			if !oka || !okb {
-				la = polyAtom(absName(info, be.X))
-				ra = polyAtom(absName(info, be.Y))
-			}
-			out[fn] = append(out[fn], cmpSite{fn, be.Pos(), be.Op, polyAdd(l, r, -1), types.ExprString(be), info.TypeOf(be.X), polyAdd(la, ra, -1)})
 			return true
 		})
 	})
-	return out
+	out := map[string][]string{}
+	for fn, hs := range direct {
+		seen := map[string]bool{fn: true}
+		var add func(h string, depth int)
+		add = func(h string, depth int) {
+			if seen[h] || depth > 2 {
+				return
+			}
+			seen[h] = true
+			out[fn] = append(out[fn], h)
+			for _, hh := range direct[h] {
+				add(hh, depth+1)
+			}
+		}
+		for _, h := range hs {
+			add(h, 1)
+		}
+	}
+	return calls, out
 }
 
 // cmpSpec is one boundary comparison of the consensus / p2p specification, located in zrnt by function and operand leaves.
@@ -81,6 +318,9 @@ type cmpSpec struct {
 	k     int64    // required constant term of P in that orientation
 	coefs []int64  // required coefficients of the atoms matched by atoms[i] (nil = all +-1 unchecked beyond sign of atoms[0])
 	count int      // expected number of matching comparisons (0 = 1)
+	abs   string   // the comparison with locals named by type, canonical (canonCutAbs): finds it again after a rename
+	res   string   // the comparison with single-definition locals substituted, canonical (canonCut): finds it again after a local was introduced or inlined
+	rop   string   // the operator under which the path is refused (refusalOp), "" when the comparison governs no refusal
 	typ   string   // optional: operand type name (e.g. "Checkpoint") instead of atoms
 	spec  string   // the spec's formulation
 }
@@ -133,7 +373,11 @@ func init() {
 				continue
 			}
 			for _, s := range all[fn] {
-				fmt.Printf("%-55s %-2s  P=%-60s  // %s\n", fn, s.op, s.p.String(), s.text)
+				ropS := ""
+				if s.rop != 0 {
+					ropS = s.rop.String()
+				}
+				fmt.Printf("%-55s %-2s  P=%-60s  // %s\t%s\t%s\t%s\n", fn, s.op, s.p.String(), s.text, canonCutAbs(s.pa, s.op), canonCut(s.pr, s.op), ropS)
 			}
 		}
 		os.Exit(0)
@@ -188,17 +432,23 @@ func ruleCmpSpec(c *Ctx) {
 	}
 	// pre-pass: comparisons that some entry accounts for are never near-miss candidates of another entry
 	claimed := map[token.Pos]bool{}
+	claimedOwn := map[token.Pos]bool{} // accounted for by an entry of the function the comparison is written in
+	claimedByOther := map[token.Pos]bool{}
 	for _, gk := range order {
 		g := groups[gk]
+		var gres []*regexp.Regexp
+		for _, a := range g.atoms {
+			gres = append(gres, regexp.MustCompile(a))
+		}
 		for _, s := range all[g.fn] {
-			okAll := true
-			for _, a := range g.atoms {
-				if _, ok := coefOfAtom(s.p, regexp.MustCompile(a)); !ok {
-					okAll = false
-				}
-			}
-			if okAll && len(atomsOf(s.p)) == len(g.atoms) {
+			if _, ok := cmpForm(s, gres); ok {
 				claimed[s.pos] = true
+				if s.from == "" {
+					claimedOwn[s.pos] = true
+				}
+				if isOrdering(s.op.String()) == isOrdering(g.entries[0].op) {
+					claimedByOther[s.pos] = true // some entry asks for exactly this class of comparison over these operands
+				}
 			}
 		}
 	}
@@ -216,15 +466,14 @@ func ruleCmpSpec(c *Ctx) {
 		}
 		var matched, otherClass []cmpSite
 		for _, s := range sites {
-			okAll := true
-			for _, re := range res {
-				if _, ok := coefOfAtom(s.p, re); !ok {
-					okAll = false
-				}
+			if s.from != "" && claimedOwn[s.pos] {
+				continue // a helper's comparison that the helper's own entries account for
 			}
-			// the comparison is about exactly these operands (no further atoms) and of the same class as the spec's
-			// (ordering vs equality): an equality test over the same operands is a different condition
-			if okAll && len(atomsOf(s.p)) == len(res) {
+			// the comparison is about exactly these operands (no further atoms), written directly or through
+			// single-definition locals, and of the same class as the spec's (ordering vs equality): an equality test
+			// over the same operands is a different condition
+			if form, ok := cmpForm(s, res); ok {
+				s.p = form
 				if isOrdering(s.op.String()) == isOrdering(g.entries[0].op) {
 					matched = append(matched, s)
 				} else {
@@ -237,12 +486,30 @@ func ruleCmpSpec(c *Ctx) {
 			specs = append(specs, e.spec)
 		}
 		specStr := strings.Join(specs, " / ")
-		if len(matched) == 0 && len(otherClass) > 0 {
-			// the same operands are still compared, but an equality became an ordering test or the reverse
-			c.bad(key, otherClass[0].pos, "%s compares these operands with %s where the rule is %s (%s)", g.fn, otherClass[0].op, g.entries[0].op, specStr)
-			continue
-		}
 		if len(matched) == 0 {
+			// renamed operands / a local introduced or inlined: the same comparison once locals are named by type or
+			// substituted, not accounted for by another entry
+			if ok, verdict, pos := cmpAbsMatch(g.fn, g.entries, g.atoms, sites, claimed); ok {
+				if verdict == "" {
+					c.ok(key, pos, "%s (operands renamed or routed through a local)", specStr)
+				} else {
+					c.bad(key, pos, "%s: %s — spec: %s", g.fn, verdict, specStr)
+				}
+				continue
+			}
+			// the same operands are still compared, but an equality became an ordering test or the reverse (and no other
+			// entry asks for that comparison)
+			var oc *cmpSite
+			for i := range otherClass {
+				if !claimedByOther[otherClass[i].pos] {
+					oc = &otherClass[i]
+					break
+				}
+			}
+			if oc != nil {
+				c.bad(key, oc.pos, "%s compares these operands with %s where the rule is %s (%s)", g.fn, oc.op, g.entries[0].op, specStr)
+				continue
+			}
 			nm, why := cmpNearMiss(g.fn, g.atoms, res, sites, isOrdering(g.entries[0].op), claimed)
 			if nm == nil {
 				// fallback: the replacement may also have changed the class (an equality turned into an ordering test)
@@ -256,23 +523,68 @@ func ruleCmpSpec(c *Ctx) {
 			continue
 		}
 		// expected and found multisets of "op k coefs"
-		sig := func(op string, k int64, coefs []int64) string { return fmt.Sprintf("%s %+d %v", op, k, coefs) }
+		sig := func(op string, k int64, coefs []int64) string {
+			// What is checked is the CUT the comparison makes in the integers, not which side of it the code calls
+			// "true": with L the linear part, `L+k <= 0` and its negation `L+k > 0` both separate {L <= -k} from
+			// {L >= -k+1}; `L+k < 0` and `L+k >= 0` separate {L <= -k-1} from {L >= -k}. An inverted condition with
+			// swapped branches, !(a <= b) for a > b, a < b+1 for a <= b are all the same cut; `<` for `<=` is not.
+			switch op {
+			case "<=", ">":
+				return fmt.Sprintf("cut L<=%d %v", -k, coefs)
+			case "<", ">=":
+				return fmt.Sprintf("cut L<=%d %v", -k-1, coefs)
+			case "==", "!=":
+				return fmt.Sprintf("eq L=%d %v", -k, coefs)
+			}
+			return fmt.Sprintf("%s %+d %v", op, k, coefs)
+		}
+		// polarity: when every entry of the group and every matched comparison governs a refusal, compare the
+		// operator under which the refusal happens (an inverted test is then a violation, an inverted test with
+		// swapped branches is not); otherwise compare cuts only
+		polar := true
+		for _, e := range g.entries {
+			if e.rop == "" {
+				polar = false
+			}
+		}
+		for _, s := range matched {
+			if s.rop == 0 {
+				polar = false
+			}
+		}
+		psig := func(op string, k int64, coefs []int64) string {
+			switch op {
+			case "<":
+				op, k = "<=", k+1
+			case ">":
+				op, k = ">=", k-1
+			}
+			return fmt.Sprintf("refused when L%+d %s 0 %v", k, op, coefs)
+		}
 		want := map[string]int{}
 		for _, e := range g.entries {
 			n := e.count
 			if n == 0 {
 				n = 1
 			}
-			want[sig(e.op, e.k, e.coefs)] += n
+			if polar {
+				want[psig(e.rop, e.k, e.coefs)] += n
+			} else {
+				want[sig(e.op, e.k, e.coefs)] += n
+			}
 		}
 		got := map[string]int{}
 		gotText := map[string]string{}
 		for _, s := range matched {
 			p := s.p
 			op := s.op
+			rop := s.rop
 			if co, _ := coefOfAtom(p, res[0]); co < 0 {
 				p = polyMul(p, polyConst(-1))
 				op = flipOp[op]
+				if rop != 0 {
+					rop = flipOp[rop]
+				}
 			}
 			var coefs []int64
 			for _, re := range res {
@@ -280,6 +592,9 @@ func ruleCmpSpec(c *Ctx) {
 				coefs = append(coefs, co)
 			}
 			sg := sig(op.String(), p[""], coefs)
+			if polar {
+				sg = psig(rop.String(), p[""], coefs)
+			}
 			got[sg]++
 			gotText[sg] = s.text
 		}
@@ -451,4 +766,386 @@ func cmpNearMiss(fn string, atoms []string, res []*regexp.Regexp, sites []cmpSit
 		return s, fmt.Sprintf("`%s` where the spec's operand is `%s` (which still exists here, so this is not a rename)", other, lit)
 	}
 	return nil, ""
+}
+
+// canonCmp: "<op> <polynomial>" oriented on the first monomial, strict orderings turned into non-strict ones.
+func canonCmp(p Poly, op token.Token) string {
+	var keys []string
+	for k := range p {
+		if k != "" {
+			keys = append(keys, k)
+		}
+	}
+	sort.Strings(keys)
+	if len(keys) > 0 && p[keys[0]] < 0 {
+		p = polyMul(p, polyConst(-1))
+		op = flipOp[op]
+	}
+	switch op {
+	case token.LSS:
+		p = polyAdd(p, polyConst(1), 1)
+		op = token.LEQ
+	case token.GTR:
+		p = polyAdd(p, polyConst(1), -1)
+		op = token.GEQ
+	}
+	return op.String() + " " + p.String()
+}
+
+// cmpAbsMatch: every entry of the group has a comparison with the same type-named canonical form among the sites no
+// other entry accounts for. verdict "" = renamed; otherwise the description of a replaced operand.
+func cmpAbsMatch(fn string, entries []cmpSpec, atoms []string, sites []cmpSite, claimed map[token.Pos]bool) (bool, string, token.Pos) {
+	used := map[int]bool{}
+	var first token.Pos
+	var gotNamed []string
+	viaHelper := false
+	for _, e := range entries {
+		if e.abs == "" {
+			return false, "", token.NoPos
+		}
+		n := e.count
+		if n == 0 {
+			n = 1
+		}
+		for ; n > 0; n-- {
+			hit := -1
+			for i := range sites {
+				if used[i] || claimed[sites[i].pos] {
+					continue
+				}
+				if canonCutAbs(sites[i].pa, sites[i].op) == e.abs || (e.res != "" && canonCut(sites[i].pr, sites[i].op) == e.res) {
+					hit = i
+					break
+				}
+			}
+			if hit < 0 {
+				return false, "", token.NoPos
+			}
+			used[hit] = true
+			if first == token.NoPos {
+				first = sites[hit].pos
+			}
+			if sites[hit].from != "" {
+				viaHelper = true
+			}
+			gotNamed = append(gotNamed, sites[hit].p.String(), sites[hit].pr.String())
+			for u := range sites[hit].uses {
+				gotNamed = append(gotNamed, u)
+			}
+		}
+	}
+	// renamed, or another variable of the same type put in its place?
+	var want []string
+	for _, a := range atoms {
+		want = append(want, atomLiteral(a))
+	}
+	if viaHelper {
+		// the comparison now lives in a helper with its own parameter names: nothing to compare names against
+		return true, "", first
+	}
+	if sw := stillDeclaredIn(fn, want, gotNamed); len(sw) > 0 {
+		return true, fmt.Sprintf("the comparison has the reviewed shape but no longer uses %v, which still exist(s) in the function: another value of the same type was put in its place", sw), first
+	}
+	return true, "", first
+}
+
+// cmpForm: the form of the comparison (as written, or with single-definition locals substituted) that mentions
+// exactly the given operands.
+func cmpForm(s cmpSite, res []*regexp.Regexp) (Poly, bool) {
+	for _, form := range []Poly{s.p, s.pr} {
+		if form == nil {
+			continue
+		}
+		okAll := true
+		for _, re := range res {
+			if _, ok := coefOfAtom(form, re); !ok {
+				okAll = false
+			}
+		}
+		if okAll && len(atomsOf(form)) == len(res) {
+			return form, true
+		}
+	}
+	return nil, false
+}
+
+// canonCut: the cut a comparison makes, independent of which side the code calls true (see sig in ruleCmpSpec):
+// "cut <P>" stands for {P <= 0 | P >= 1}, "eq <P>" for {P == 0 | P != 0}; P oriented on its first monomial.
+func canonCut(p Poly, op token.Token) string {
+	if p == nil {
+		return ""
+	}
+	var keys []string
+	for k := range p {
+		if k != "" {
+			keys = append(keys, k)
+		}
+	}
+	sort.Strings(keys)
+	if len(keys) > 0 && p[keys[0]] < 0 {
+		p = polyMul(p, polyConst(-1))
+		op = flipOp[op]
+	}
+	switch op {
+	case token.LEQ, token.GTR:
+		return "cut " + p.String()
+	case token.LSS, token.GEQ:
+		return "cut " + polyAdd(p, polyConst(1), 1).String()
+	}
+	return "eq " + p.String()
+}
+
+var absTokRe = regexp.MustCompile("\u00a7[^#*()\\[\\],;+ ]+#[0-9]+")
+
+// canonCutAbs: canonCut over the type-named form, made independent of the order in which the locals were met: the
+// numbering of same-typed locals is chosen so that the resulting text is smallest.
+func canonCutAbs(p Poly, op token.Token) string {
+	base := canonCut(p, op)
+	toks := map[string][]string{} // type -> distinct placeholders
+	seen := map[string]bool{}
+	for _, t := range absTokRe.FindAllString(base, -1) {
+		if !seen[t] {
+			seen[t] = true
+			ty := t[:strings.LastIndex(t, "#")]
+			toks[ty] = append(toks[ty], t)
+		}
+	}
+	multi := false
+	for _, ts := range toks {
+		if len(ts) > 1 {
+			multi = true
+		}
+		if len(ts) > 4 {
+			return base
+		}
+	}
+	if !multi {
+		return base
+	}
+	best := ""
+	var types []string
+	for ty := range toks {
+		types = append(types, ty)
+	}
+	sort.Strings(types)
+	var rec func(i int, ren map[string]string)
+	rec = func(i int, ren map[string]string) {
+		if i == len(types) {
+			q := Poly{}
+			for k, c := range p {
+				nk := k
+				if k != "" {
+					parts := strings.Split(k, "*")
+					for j, a := range parts {
+						parts[j] = absTokRe.ReplaceAllStringFunc(a, func(t string) string {
+							if r, ok := ren[t]; ok {
+								return r
+							}
+							return t
+						})
+					}
+					sort.Strings(parts)
+					nk = strings.Join(parts, "*")
+				}
+				q[nk] += c
+			}
+			if s := canonCut(q, op); best == "" || s < best {
+				best = s
+			}
+			return
+		}
+		ts := toks[types[i]]
+		perm := make([]int, len(ts))
+		for j := range perm {
+			perm[j] = j
+		}
+		var permute func(k int)
+		permute = func(k int) {
+			if k == len(perm) {
+				r2 := map[string]string{}
+				for a, b := range ren {
+					r2[a] = b
+				}
+				for j, t := range ts {
+					r2[t] = fmt.Sprintf("%s#%d", types[i], perm[j]+1)
+				}
+				rec(i+1, r2)
+				return
+			}
+			for j := k; j < len(perm); j++ {
+				perm[k], perm[j] = perm[j], perm[k]
+				permute(k + 1)
+				perm[k], perm[j] = perm[j], perm[k]
+			}
+		}
+		permute(0)
+	}
+	rec(0, map[string]string{})
+	return best
+}
+
+var negOp = map[token.Token]token.Token{token.LSS: token.GEQ, token.GEQ: token.LSS, token.GTR: token.LEQ, token.LEQ: token.GTR, token.EQL: token.NEQ, token.NEQ: token.EQL}
+
+// refusalOp: if the comparison (possibly under !, &&, ||, parentheses) is the condition of an if one of whose outcomes
+// refuses — returns an error / false / a non-ACCEPT verdict, or skips the element with continue/break — the operator
+// under which the refusal happens. An inverted condition with swapped branches, `if !(a == b)`, an early `return nil`
+// on the good case followed by the error all give the same answer. 0 when the comparison does not govern a refusal.
+func refusalOp(info *types.Info, fd *ast.FuncDecl, parents map[ast.Node]ast.Node, be *ast.BinaryExpr) token.Token {
+	neg := false
+	var cur ast.Node = be
+	for {
+		par := parents[cur]
+		switch p := par.(type) {
+		case *ast.ParenExpr:
+			cur = p
+			continue
+		case *ast.UnaryExpr:
+			if p.Op == token.NOT {
+				neg = !neg
+				cur = p
+				continue
+			}
+			return 0
+		case *ast.BinaryExpr:
+			if p.Op == token.LAND || p.Op == token.LOR {
+				cur = p
+				continue
+			}
+			return 0
+		case *ast.IfStmt:
+			if p.Cond != cur {
+				return 0
+			}
+			skips := func(b *ast.BlockStmt) bool {
+				if b == nil || len(b.List) == 0 {
+					return false
+				}
+				if br, ok := b.List[len(b.List)-1].(*ast.BranchStmt); ok {
+					// `continue` skips the element; a lone `break` gives up; `found = true; break` is the action of a search
+					if br.Tok == token.CONTINUE || (br.Tok == token.BREAK && len(b.List) == 1) {
+						return true
+					}
+				}
+				if r, ok := b.List[0].(*ast.ReturnStmt); ok && len(b.List) == 1 && len(r.Results) == 0 && fd.Type.Results == nil {
+					return true // a bare return: nothing (more) is done
+				}
+				if !refusalBlock(info, b, fd) {
+					return false
+				}
+				// a block that also holds a success return is a separate path through the function, not a refusal
+				pure := true
+				ast.Inspect(b, func(n ast.Node) bool {
+					switch r := n.(type) {
+					case *ast.FuncLit:
+						return false
+					case *ast.ReturnStmt:
+						if !refusalBlock(info, &ast.BlockStmt{List: []ast.Stmt{r}}, fd) {
+							pure = false
+						}
+					}
+					return pure
+				})
+				return pure
+			}
+			thenRef := skips(p.Body)
+			elseRef := false
+			if eb, ok := p.Else.(*ast.BlockStmt); ok {
+				elseRef = skips(eb)
+			}
+			if !thenRef && !elseRef && p.Else == nil {
+				// `if good { ...; return nil }` directly followed by the refusal
+				if blk, ok := parents[p].(*ast.BlockStmt); ok {
+					for i, st := range blk.List {
+						if st == ast.Stmt(p) && i+1 < len(blk.List) {
+							if r, ok := blk.List[i+1].(*ast.ReturnStmt); ok && terminates(p.Body) {
+								elseRef = refusalBlock(info, &ast.BlockStmt{List: []ast.Stmt{r}}, fd)
+							}
+						}
+					}
+				}
+			}
+			op := be.Op
+			switch {
+			case thenRef && !elseRef:
+			case elseRef && !thenRef:
+				op = negOp[op]
+			case !thenRef && !elseRef && p.Else == nil && len(p.Body.List) > 0:
+				// `if cond { act }` without else: the action is skipped when the condition is false
+				op = negOp[op]
+			case !thenRef && !elseRef && p.Else != nil:
+				// two actions: the branch is named by the first (alphabetically) field, method, function or constant
+				// that only one of them mentions (locals do not count: renaming one must not matter); swapping the
+				// branches and negating the condition leaves the reading unchanged
+				switch branchMark(info, p.Body, p.Else) {
+				case 1:
+					op = negOp[op] // the marked action is skipped when the condition is false
+				case 2:
+				default:
+					return 0
+				}
+			default:
+				return 0
+			}
+			if neg {
+				op = negOp[op]
+			}
+			return op
+		case *ast.ForStmt:
+			if p.Cond != cur {
+				return 0
+			}
+			op := negOp[be.Op] // the loop is left when the condition is false
+			if neg {
+				op = negOp[op]
+			}
+			return op
+		case *ast.ReturnStmt, *ast.AssignStmt, *ast.ValueSpec, *ast.KeyValueExpr:
+			// a boolean VALUE (returned, stored): its polarity is fixed by what the value means; recorded as the
+			// operator under which the value is FALSE so that it shares the "refused when" vocabulary
+			op := negOp[be.Op]
+			if neg {
+				op = negOp[op]
+			}
+			return op
+		default:
+			return 0
+		}
+	}
+}
+
+// branchMark: 1 when the distinguishing non-local name is in a, 2 when in b, 0 when there is none.
+func branchMark(info *types.Info, a, b ast.Node) int {
+	names := func(n ast.Node) map[string]bool {
+		m := map[string]bool{}
+		ast.Inspect(n, func(k ast.Node) bool {
+			id, ok := k.(*ast.Ident)
+			if !ok {
+				return true
+			}
+			o := info.ObjectOf(id)
+			switch v := o.(type) {
+			case *types.Func, *types.Const:
+				m[id.Name] = true
+			case *types.Var:
+				if v.IsField() || (v.Pkg() != nil && v.Parent() == v.Pkg().Scope()) {
+					m[id.Name] = true
+				}
+			}
+			return true
+		})
+		return m
+	}
+	na, nb := names(a), names(b)
+	best, where := "", 0
+	for n := range na {
+		if !nb[n] && (best == "" || n < best) {
+			best, where = n, 1
+		}
+	}
+	for n := range nb {
+		if !na[n] && (best == "" || n < best) {
+			best, where = n, 2
+		}
+	}
+	return where
 }
